@@ -16,13 +16,18 @@ def run(ctx):
     res.rule("C07-R3", "empty batch: element access on the frame list in the finisher is guarded by a non-emptiness test")
     res.rule("C07-R4", "tiling: declared payload length == copied length == payload-position movement == free-byte movement; header written before the slice")
     res.rule("C07-R5", "each payload byte once, in order: the copy source advances with the loop position")
+    res.rule("C07-R6", "writes stay inside the frame: the message header is written only with >= 16 free bytes on every path (test taken false, or a "
+                        "frame opened just before), the chunk is min(free - 16, ...) computed before the header write, the header writer takes exactly "
+                        "16 bytes, and header and chunk are written at frame[size() - free]")
     res.not_decided += ["min <= len <= max and exact tiling as arithmetic over all (min, max, len)"]
     nt, nf = E.rule_frames_zeroed_trimmed(res, "C07-R1", m)
     E.rule_no_empty_frame(res, "C07-R2", m)
     E.rule_empty_batch(res, "C07-R3", m)
     E.rule_one_length(res, "C07-R4", m)
     E.rule_segment_source_advances(res, "C07-R5", m)
+    E.rule_writes_inside_frame(res, "C07-R6", m)
     res.floor("C07-R1", 5)
     res.floor("C07-R4", 4)
     res.floor("C07-R5", 1)
+    res.floor("C07-R6", 7)
     return res
